@@ -118,6 +118,19 @@ def scale_by_hs(repo, rep):
         rep.ok("R-C10-4", f"{fi.file}:{fi.node.lineno} scale_by_hs", "k = (expr/hs)^2; (k * spectrum).where(condition, spectrum)", "prescribed height where the condition holds, untouched elsewhere")
     else:
         rep.fail("R-C10-4", fi.file, fi.node.lineno, fi.qualname, "scale_by_hs", "spectra must be scaled by (expr(hs)/hs)^2 where the condition holds and returned unchanged elsewhere")
+    # the ranges are combined: inside the range branches the condition is only ever narrowed (cond *= .., cond &= .., cond = cond & ..)
+    if len(rets) == 1 and isinstance(rets[0][1], ast.Call) and rets[0][1].args and isinstance(rets[0][1].args[0], ast.Name):
+        cname = rets[0][1].args[0].id
+        for n in ast.walk(fi.node):
+            if isinstance(n, ast.If):
+                for b in ast.walk(n):
+                    if isinstance(b, ast.Assign) and any(isinstance(t, ast.Name) and t.id == cname for t in b.targets) and b in n.body + n.orelse:
+                        if not any(isinstance(x, ast.Name) and x.id == cname for x in ast.walk(b.value)):
+                            rep.fail("R-C10-4", fi.file, b.lineno, fi.qualname, unparse(b)[:100],
+                                     f"'{cname}' is overwritten instead of narrowed: the ranges tested before this one are forgotten, so spectra outside "
+                                     "the stated height / period range are rescaled when a later range is also given")
+                    if isinstance(b, ast.AugAssign) and isinstance(b.target, ast.Name) and b.target.id == cname and not isinstance(b.op, (ast.Mult, ast.BitAnd)):
+                        rep.fail("R-C10-4", fi.file, b.lineno, fi.qualname, unparse(b)[:100], f"'{cname}' must be narrowed by conjunction (*= / &=)")
     for var in ("hs", "tp", "dpm"):
         found = False
         for n in ast.walk(fi.node):
